@@ -105,7 +105,7 @@ pub fn parse<'a>(token: &'a tokenizer::Token) -> Option<Element<'a>> {
                 (pairs, last_state)
             };
 
-            if last_state == State::ParseError {
+            if last_state == State::ParseError || pairs.is_empty() {
                 return None;
             }
 
